@@ -764,6 +764,11 @@ def run_kb(ck):
                 p.model["skip"] = True
             else:
                 idx.append(i)
+        # accept/reject agreement on the probes that are NOT compared type-wise: the model answers `error`
+        # (mkbinaryexpr & co. call error()) or types an expression the Spec does not allow.  Whether rejecting
+        # is right is property C10; here only: does the model's accept/reject decision describe the code?
+        if targ == TARGETS[0][0]:
+            acceptance_agreement(ck, cc, d, targ, probes, decls, stats)
         # compile, dropping probes cproc rejects (each one is examined)
         rejected = []
         for attempt in range(40):
@@ -882,6 +887,51 @@ def run_kb(ck):
     ck.sample({"K-B probe": probes[100].c, "driver": probes[100].d, "model": probes[100].model and probes[100].model["txt"]})
     ck.sample({"K-B probe": probes[-5].c, "driver": probes[-5].d, "model": probes[-5].model and probes[-5].model["txt"]})
     return hard
+
+
+def acceptance_agreement(ck, cc, d, targ, probes, decls, stats):
+    sel = [i for i, p in enumerate(probes) if p.model is None or not p.model["ok"]]
+    if len(sel) > 6000:
+        sel = ck.rng.sample(sel, 6000)
+    dd = os.path.join(d, "acc")
+    os.makedirs(dd, exist_ok=True)
+    for i in sel:
+        with open(os.path.join(dd, "%d.c" % i), "w") as f:
+            f.write("\n".join(decls) + "\nint A_%d = __builtin_types_compatible_p(typeof(%s), int);\n" % (i, probes[i].c))
+    script = 'for f; do "$CC" -t "$TARG" "$f" >/dev/null 2>"$f.err"; echo "$f $?"; done'
+    names = "".join(os.path.join(dd, "%d.c" % i) + "\n" for i in sel)
+    r = subprocess.run(["xargs", "-P", str(common.NPROC), "-n", "48", "sh", "-c", script, "sh"], input=names,
+                       stdout=subprocess.PIPE, stderr=subprocess.PIPE, text=True, env=dict(os.environ, CC=cc, TARG=targ))
+    rc = {}
+    for ln in r.stdout.splitlines():
+        f, c = ln.rsplit(" ", 1)
+        rc[int(os.path.basename(f)[:-2])] = int(c)
+    if len(rc) != len(sel):
+        raise Broken("acceptance run lost results: %d of %d" % (len(rc), len(sel)))
+    agree = {"model_error_code_rejects": 0, "model_types_code_accepts": 0}
+    bad = 0
+    for i in sel:
+        p = probes[i]
+        ck.count(("accept", targ) + p.cls)
+        err = open(os.path.join(dd, "%d.c.err" % i)).read()
+        if rc[i] not in (0, 1):
+            raise Broken("cproc-qbe status %d on %r: %s" % (rc[i], p.c, err[-200:]))
+        if (p.model is None) == (rc[i] != 0):
+            agree["model_error_code_rejects" if p.model is None else "model_types_code_accepts"] += 1
+            continue
+        bad += 1
+        if bad > 3:
+            continue
+        ck.violation({"kind": "kb-accept", "target": targ, "expr": p.c, "class": list(p.cls),
+                      "model": "error" if p.model is None else p.model["txt"], "code": "rejects: " + err.strip()[-200:] if rc[i] else "accepts",
+                      "program": "\n".join(decls) + "\nint A = __builtin_types_compatible_p(typeof(%s), int);\n" % p.c,
+                      "theorem": "Model/Types.lean no longer describes which expressions expr.c accepts",
+                      "what": "the model %s this expression, cproc-qbe %s it" %
+                              (("rejects", "accepts") if p.model is None else ("types", "rejects"))}, nofail=True)
+    agree["disagreements"] = bad
+    stats["acceptance_agreement"] = agree
+    import shutil
+    shutil.rmtree(dd, True)
 
 
 def probe_program(decls, p):
